@@ -163,9 +163,12 @@ class Env:
             return ch[0] / ch[1]
         if k == Z.Z3_OP_POWER:
             try:
-                return ch[0] ** ch[1]
+                r = ch[0] ** ch[1]
             except (ZeroDivisionError, OverflowError, ValueError):
                 raise Reject("power domain")
+            if isinstance(r, complex):
+                raise Reject("power domain")
+            return r
         if k == Z.Z3_OP_ITE:
             return ch[1] if ch[0] else ch[2]
         if k == Z.Z3_OP_LE:
@@ -206,9 +209,12 @@ class Env:
             return hooks[name](*args)
         if name == "pow":
             try:
-                return float(args[0]) ** float(args[1])
+                r = float(args[0]) ** float(args[1])
             except (ZeroDivisionError, OverflowError, ValueError):
                 raise Reject("pow domain")
+            if isinstance(r, complex):
+                raise Reject("pow domain")
+            return r
         if name == "atan2":
             return math.atan2(args[0], args[1])
         h = hashlib.sha256((name + "|" + "|".join(struct.pack("<d", float(a)).hex() for a in args)).encode()).digest()
